@@ -81,7 +81,9 @@ def rules(chk, db):
     rwrules.check_fd_class(chk, db, 'nop::FdReader', 'reader', 'FDR')
     # a well-formed table from a newer definition (more entries, unknown ids) is accepted: the decoder refuses only a wrong hash
     from .. import tablerules
-    tablerules.rules(chk, db, {'TL'})
+    # ... and "yields the value those bytes denote": a table's entries are all cleared before the entry loop, on every path
+    # (a zero-entry table decoded into a used destination must not keep stale entries)
+    tablerules.rules(chk, db, {'TL', 'TC'})
 
 
 def run(chk, db):
